@@ -10,7 +10,7 @@ from vlib.core import Failure
 
 PROP = "C04"
 RULE = (
-    "a case is (pool kind direct | forwarding proxy | CONNECT tunnel (null TLS), placement of the policy request | pool/manager level, "
+    "a case is (pool kind direct | forwarding proxy | CONNECT tunnel (null TLS) | CONNECT tunnel through an https proxy (TLS in TLS), placement of the policy request | pool/manager level, "
     "policy = False | int | None | Retry(total, connect, read, status, other, allowed_methods, status_forcelist, "
     "raise_on_status, respect_retry_after_header, backoff_factor, backoff_max, backoff_jitter), method, per-attempt outcome "
     "script of <= 5 outcomes from {connect refused, connect timeout, name resolution error, read timeout, reset, EOF, "
@@ -101,7 +101,7 @@ def _outcome_to_script(o):
 
 
 def _validate(case):
-    if case.get("kind") != "retry" or case.get("pool") not in ("direct", "fwd", "tunnel") or case.get("place") not in ("request", "pool"):
+    if case.get("kind") != "retry" or case.get("pool") not in ("direct", "fwd", "tunnel", "tunnel-tls") or case.get("place") not in ("request", "pool"):
         raise core.InvalidCase
     if case.get("method") not in METHODS or not isinstance(case.get("script"), list) or len(case["script"]) > 6:
         raise core.InvalidCase
@@ -133,7 +133,7 @@ def _validate(case):
             raise core.InvalidCase
 
 
-def wrapped_types(kind, proxied):
+def wrapped_types(kind, proxied, pool=None):
     """Names of urllib3 exception classes that are the documented wrapping of this fault."""
     from urllib3 import exceptions as ue
 
@@ -145,6 +145,8 @@ def wrapped_types(kind, proxied):
     }[kind]
     if proxied and kind in ("refused", "ctimeout", "gaierror"):
         return (ue.ProxyError,)  # could not reach the proxy
+    if pool == "tunnel-tls" and kind == "tlsfail":
+        return (ue.ProxyError,)  # the script's TLS failure hits the first handshake, which is the one with the https proxy
     return base
 
 
@@ -156,7 +158,7 @@ def run_case(case) -> list[Failure]:
     spec = case["retries"]
     eff = effective(spec)
     method = case["method"]
-    proxied = case["pool"] in ("fwd", "tunnel")
+    proxied = case["pool"] in ("fwd", "tunnel", "tunnel-tls")
     script = [_outcome_to_script(o) for o in case["script"]]
     ref = [None]
     clock = _Clock(ref)
@@ -171,11 +173,14 @@ def run_case(case) -> list[Failure]:
         kw_pool = {"retries": retries} if case["place"] == "pool" else {}
         kw_req = {"retries": retries} if case["place"] == "request" else {}
         body = b"x=1" if method in ("POST", "PUT", "PATCH") else None
-        if case["pool"] == "tunnel":
+        if case["pool"] in ("tunnel", "tunnel-tls"):
             from vlib import nulltls
 
             nulltls.reset()
-            obj = urllib3.ProxyManager("http://proxy.test:3128", ssl_context=nulltls.NullTLSContext("c04"), **kw_pool)
+            if case["pool"] == "tunnel-tls":  # https proxy: TLS to the proxy, CONNECT, TLS in TLS through urllib3's SSLTransport
+                obj = urllib3.ProxyManager("https://proxy.test:3128", ssl_context=nulltls.NullTLSContext("c04"), proxy_ssl_context=nulltls.NullTLSContext("c04-proxy"), **kw_pool)
+            else:
+                obj = urllib3.ProxyManager("http://proxy.test:3128", ssl_context=nulltls.NullTLSContext("c04"), **kw_pool)
             url = "https://a.test/x"
         elif proxied:
             obj = urllib3.ProxyManager("http://proxy.test:3128", **kw_pool)
@@ -275,7 +280,7 @@ def run_case(case) -> list[Failure]:
             fails.append(Failure("ending", {**sig0, "what": "exception-after-response", "exc": type(exc).__name__}, brief()))
     else:
         k = last["o"]
-        want = wrapped_types(k, proxied)
+        want = wrapped_types(k, proxied, case["pool"])
         if exc is None:
             fails.append(Failure("ending", {**sig0, "what": "no-error"}, f"last outcome was the fault {k} but a response came back: {brief()}"))
         elif isinstance(exc, ue.MaxRetryError):
@@ -354,7 +359,7 @@ def enum_cases(tier):
     variants = [("GET", "default", "direct", "request"), ("POST", "default", "direct", "request"), ("POST", "none", "fwd", "pool"), ("PUT", "post", "direct", "pool"), ("POST", "post", "fwd", "request"),
                 ("GET", "default", "tunnel", "request"), ("POST", "default", "tunnel", "pool")]
     if tier != "quick":
-        variants += [("DELETE", "default", "fwd", "request"), ("PATCH", "default", "direct", "pool"), ("GET", "none", "fwd", "pool")]
+        variants += [("POST", "default", "tunnel-tls", "request"), ("DELETE", "default", "fwd", "request"), ("PATCH", "default", "direct", "pool"), ("GET", "none", "fwd", "pool")]
     for g in grids:
         for method, am, pool, place in variants:
             spec = dict(g)
@@ -367,7 +372,7 @@ def enum_cases(tier):
                 for seq in itertools.product(outs, repeat=k):
                     if any(isinstance(o, dict) and o["s"] == 200 for o in seq[:-1]):
                         continue  # nothing follows a 200
-                    if pool != "tunnel" and any(o in ("tlsfail", "connect_refused") for o in seq):
+                    if not pool.startswith("tunnel") and any(o in ("tlsfail", "connect_refused") for o in seq):
                         continue
                     yield {"kind": "retry", "pool": pool, "place": place, "retries": spec, "method": method, "script": list(seq)}
 
@@ -385,7 +390,7 @@ def _hyp():
     spec = st.one_of(retry, retry, retry, st.just({"t": "false"}), st.just({"t": "none"}), st.builds(lambda v: {"t": "int", "v": v}, st.integers(0, 4)))
     outcome = st.one_of(st.sampled_from(FAULTS), st.sampled_from(FAULTS), st.sampled_from(RESPS))
     return st.fixed_dictionaries({
-        "kind": st.just("retry"), "pool": st.sampled_from(["direct", "direct", "fwd", "tunnel"]), "place": st.sampled_from(["request", "pool"]),
+        "kind": st.just("retry"), "pool": st.sampled_from(["direct", "direct", "fwd", "tunnel", "tunnel-tls"]), "place": st.sampled_from(["request", "pool"]),
         "retries": spec, "method": st.sampled_from(METHODS), "script": st.lists(outcome, min_size=1, max_size=5),
     })
 
